@@ -21,7 +21,8 @@ CHECKS = {
             "merge=False/default/optimize/CLEAR, compound/loose, commit or cancel) are run through a counting FileStorage subclass. At every boundary k the directory a process death "
             "would leave is materialised (as is; open files fully flushed; truncated to 0; cut to half) and must open, equal exactly the old or the new logical state, accept a new "
             "writer with timeout=0 whose commit yields state+1 document and leaves no segment/TOC file outside the current TOC. Every 16th boundary and every boundary from the TOC's "
-            "creation on is additionally produced by a forked child that re-runs the transaction and dies with os._exit(137) there.",
+            "creation on is additionally produced by a forked child that re-runs the transaction and dies with os._exit(137) there. The system calls inside rename_file / delete_file "
+            "(os.rename / replace / remove / open) are boundaries of their own.",
             "Power-loss semantics (unsynced page cache, reordered metadata) are outside the statement ('the writing process dies') and not modelled. Exhaustive over boundaries per generated transaction, not over transactions. Byte-identical survivors are judged once (the oracle is a function of the directory content).",
             "DESIGN.md section 2 C02"),
     "C03": ("exploration",
